@@ -417,6 +417,9 @@ class FlowParser:
                         if index_variable:
                             self.sheet_parser.add_to_context(index_variable, i)
                         self._parse_block(depth + 1, "for")
+                    if not row.mainarg_iterlist:
+                        # Nothing to iterate over: skip the body of the loop
+                        self._parse_block(depth + 1, "for", omit_content=True)
                     self.node_group_stack.pop()
                     self.append_node_group(new_node_group, row.row_id)
                     for variable in loop_variables:
